@@ -378,6 +378,50 @@ func c19Families(tier string) []explore.Family {
 			c19Compare(r, ti, given, eff, "empty-positions")
 		}
 	}})
+	// sources that {% include %} reads at render time are spelled with the same delimiters: partials holding only
+	// objects, only tags, both, or no markup, under every subset of positions left empty
+	parts := []string{"H \x01- x -\x02 !", "a\x03 if x \x04yes\x03 else \x04no\x03 endif \x04b", "\x01 x \x02\x03 for i in l \x04\x01 i \x02\x03 endfor \x04", "plain text only", "\x03 raw \x04 body \x03 endraw \x04"}
+	const incMain = "|\x03 include 'c19part.inc' \x04|\x01 x \x02"
+	incRender := func(given, eff [4]string, def bool, part string) (o Outcome, main, partSrc string) {
+		main, partSrc = c19Spell(incMain, eff, def), c19Spell(part, eff, def)
+		o.Panic = explore.Safe(func() {
+			e := liquid.NewEngine()
+			if !def {
+				e.Delims(given[0], given[1], given[2], given[3])
+			}
+			if _, err := e.ParseTemplateAndCache([]byte(partSrc), "c19part.inc", 1); err != nil {
+				o.Err = err
+				return
+			}
+			out, err := e.ParseAndRender([]byte(main), c19Bind())
+			o.Out, o.Err = string(out), err
+		})
+		return
+	}
+	fams = append(fams, explore.Family{Name: "included-sources-under-empty-positions", Count: int64(len(reps) * 16 * len(parts)), Run: func(i int64, r *explore.Rec) {
+		rx := radix{i}
+		part, mask, q := parts[rx.next(len(parts))], rx.next(16), reps[rx.next(len(reps))]
+		given, eff := q, q
+		for j := 0; j < 4; j++ {
+			if mask&(1<<uint(j)) != 0 {
+				given[j], eff[j] = "", c19Default[j]
+			}
+		}
+		if !c19Valid(eff) {
+			return
+		}
+		r.Eval()
+		r.Trace()
+		base, _, _ := incRender(c19Default, c19Default, true, part)
+		o, main, partSrc := incRender(given, eff, false, part)
+		r.Class("include/" + o.Class())
+		if base.Panic != nil || base.Err != nil {
+			panic(explore.BaselineFailure{Msg: "harness: default spelling fails: " + base.String()})
+		}
+		if o.String() != base.String() {
+			r.Violation("differs:included-source", map[string]any{"delims": given, "template": main, "c19part.inc": partSrc}, base.String(), o.String())
+		}
+	}})
 	return fams
 }
 
